@@ -488,6 +488,9 @@ macro_rules! reg_mm {
     };
 }
 
+static ENTERED: std::sync::atomic::AtomicBool = std::sync::atomic::AtomicBool::new(false);
+static RELEASE: std::sync::atomic::AtomicBool = std::sync::atomic::AtomicBool::new(false);
+
 struct Node {
     v: usize,
     child: Option<Box<Node>>,
@@ -512,6 +515,16 @@ impl Node {
         self.v
     }
     fn get_ro(&self) -> usize {
+        self.v
+    }
+    /// a host function that is still running when the lending call returns (used by `threaduse`)
+    fn slow_get(&mut self) -> usize {
+        use std::sync::atomic::Ordering::SeqCst;
+        ENTERED.store(true, SeqCst);
+        let t0 = std::time::Instant::now();
+        while !RELEASE.load(SeqCst) && t0.elapsed().as_secs() < 5 {
+            std::thread::sleep(std::time::Duration::from_millis(1));
+        }
         self.v
     }
     fn set(&mut self, v: usize) {
@@ -597,6 +610,14 @@ fn new_engine(tab: &mut HashMap<String, String>) -> Engine {
     // borrowed references
     e.register_fn("node-get", Node::get);
     e.register_fn("node-get-ro", Node::get_ro);
+    e.register_fn("node-slow-get", Node::slow_get);
+    e.register_fn("c20-wait-entered", || -> bool {
+        let t0 = std::time::Instant::now();
+        while !ENTERED.load(std::sync::atomic::Ordering::SeqCst) && t0.elapsed().as_secs() < 5 {
+            std::thread::sleep(std::time::Duration::from_millis(1));
+        }
+        ENTERED.load(std::sync::atomic::Ordering::SeqCst)
+    });
     e.register_fn("node-set!", Node::set);
     RegisterFn::<_, MarkerWrapper7<(Node, Node, Node, Node)>, Node>::register_fn(&mut e, "node-child", Node::child);
     RegisterFn::<_, MarkerWrapper8<(Node, Node, Node, Node)>, Node>::register_fn(&mut e, "node-child-ro", Node::child_ro);
@@ -916,6 +937,33 @@ fn one(st: &mut St, engine: &mut Engine, toks: &[&str], depth: usize) -> String 
                     }
                 }
                 Err(e) => format!("{} called={}", err_class(&e), if recv.is_some() { "yes" } else { "no" }),
+            }
+        }
+        "threaduse" => {
+            // threaduse <h> <c>: another thread starts a slow host call on the handle (inside the call)
+            if toks.len() != 3 {
+                return "bad parse".into();
+            }
+            let (h, c) = match (toks[1].trim_start_matches('h').parse::<usize>(), toks[2].trim_start_matches('c').parse::<usize>()) {
+                (Ok(h), Ok(c)) => (h, c),
+                _ => return "bad parse".into(),
+            };
+            let from = match st.copies.get(&(h, c)) {
+                Some(cp) => unwrap_(&cp.place, &cname(h, c)),
+                None => return "bad no-copy".into(),
+            };
+            ENTERED.store(false, std::sync::atomic::Ordering::SeqCst);
+            RELEASE.store(false, std::sync::atomic::Ordering::SeqCst);
+            match run_class(engine, format!("(define THR (spawn-native-thread (lambda () (node-slow-get {})))) (c20-wait-entered)", from)) {
+                Ok(v) => format!("ok entered={}", show_sv(&v)),
+                Err(e) => e,
+            }
+        }
+        "threadjoin" => {
+            RELEASE.store(true, std::sync::atomic::Ordering::SeqCst);
+            match run_class(engine, "(thread-join! THR)".to_string()) {
+                Ok(v) => format!("ok {}", show_sv(&v)),
+                Err(e) => e,
             }
         }
         "copy" => {
